@@ -23,7 +23,7 @@ def check(run):
     L = 2 if run.tier == "quick" else 3
     cfg = vlib.cfg_consts(DAlphabet={48, 49, 57, 97, 46, 43, 126, 45}, DMaxLen=L) + \
         "SPECIFICATION DMSpec\nINVARIANT MachineAgreesWithRecursion\nINVARIANT CursorsInRange\nPROPERTY Terminates\nCHECK_DEADLOCK FALSE\n"
-    vlib.tlc(run, "MC_Dpkg", cfg, workers=8, timeout=2400, heap="8g")
+    vlib.tlc(run, "MC_Dpkg", cfg, workers=8, timeout=2400, heap="8g", coverage=True)
     run.extra["dpkg_machine_max_string_length"] = L
     return refcheck.run_ref(run, "C10", ["debian"], (1050, 4000), seeded_fn=seeded,
         rule="pairs of in-scope (dpkg-valid) members within blocks of <=350 members of the TLC-generated universe + seeded character-level strings; each pair judged by Dpkg.tla",
